@@ -2,8 +2,22 @@
 C01 – theorems that tie the model's assumptions to fact tables regenerated from the
 repository's source on every run (extract/main.go). Kept apart from C01.lean so that the
 property theorems and these obligations can be maintained independently.
+
+Three regenerated tables:
+* Generated/Locks       – step granularity (`C01.atomic_sections`, `C01.reader_queue_writers`);
+* Generated/JoinFacts   – the decision structure of `packet.Join` (extract/join.go). `C01.join_facts_as_modelled`
+  pins it; `C01.join_as_modelled` *interprets* the rows (the if-chains as comparisons on lengths, the loop as the two
+  filters) and proves that the interpretation is the model's `join` for every input;
+* Generated/WriterFacts – writer.go / reader.go (extract/writer.go): outlines of the functions the model follows, and
+  the loops / guards / pops it transcribes 1:1 as flat data. The `…_facts` theorems pin the data, the `…_as_modelled`
+  theorems read the data (a `for` as a loop with fuel, `s[i]`/`s = s[lo:]` as `getElem?`/`drop`, a `range` without
+  continue/break/return as "every element") and prove that the reading is the model's step.
 -/
 import Uniflow.Generated.Locks
+import Uniflow.Generated.JoinFacts
+import Uniflow.Generated.WriterFacts
+import Uniflow.Model.Writer
+import Uniflow.Model.Pump
 
 /-! ## Step granularity tied to the source
 
@@ -16,4 +30,496 @@ theorem C01.atomic_sections :
     acquireSites.contains ("packet.Writer", "receive", "mu", 1) = true ∧
     acquireSites.contains ("packet.Reader", "Receive", "mu", 1) = true ∧
     acquireSites.contains ("packet.Reader", "Close", "mu", 1) = true := by
+  decide
+
+open Uniflow.Writer
+
+/-! ## `packet.Join` -/
+
+namespace C01
+/-- `len(x) OP n` on a length -/
+def cmpHolds (op : String) (len n : Nat) : Option Bool :=
+  if op = "==" then some (len == n)
+  else if op = "!=" then some (len != n)
+  else if op = ">" then some (decide (len > n))
+  else if op = ">=" then some (decide (len ≥ n))
+  else if op = "<" then some (decide (len < n))
+  else if op = "<=" then some (decide (len ≤ n))
+  else none
+
+/-- The expressions `Join` returns, as the model reads them -/
+def joinResult (expr : String) (pcks : List Ans) (errs vals : List Nat) : Option Resp :=
+  if expr = "None" then some .none
+  else if expr = "pcks[0]" then pcks.head?.map Resp.ofAns
+  else if expr = "New(types.NewError(errors.Join(errs...)))" then some (.err errs)
+  else if expr = "New(payloads[0])" then vals.head?.map .val
+  else if expr = "New(types.NewSlice(payloads...))" then some (.vals vals)
+  else none
+
+def joinLen (operand : String) (pcks : List Ans) (errs vals : List Nat) : Option Nat :=
+  if operand = "pcks" then some pcks.length
+  else if operand = "errs" then some errs.length
+  else if operand = "payloads" then some vals.length
+  else none
+
+inductive Chain where
+  | ret (r : Resp)   -- a branch was taken
+  | fall             -- no branch taken
+  | bad              -- a row the interpretation does not understand
+  deriving DecidableEq, Repr
+
+def joinChain (pcks : List Ans) (errs vals : List Nat) : List (String × String × Nat × String) → Chain
+  | [] => .fall
+  | (operand, op, n, expr) :: rest =>
+    if op = "" then (match joinResult expr pcks errs vals with | some r => .ret r | none => .bad)
+    else match joinLen operand pcks errs vals with
+      | none => .bad
+      | some len =>
+        match cmpHolds op len n with
+        | none => .bad
+        | some true => (match joinResult expr pcks errs vals with | some r => .ret r | none => .bad)
+        | some false => joinChain pcks errs vals rest
+
+/-- What the loop of `Join` collects -/
+def joinCollect (skipCond skipAction tag : String) (cases : List (String × String)) (pcks : List Ans) :
+    Option (List Nat × List Nat) :=
+  if skipCond = "pck == nil || pck == None" ∧ skipAction = "continue" ∧ tag = "payload := pck.Payload().(type)" ∧
+     cases = [("types.Error", "errs = append(errs, payload.Unwrap())"), ("default", "payloads = append(payloads, payload)")]
+  then some (pcks.filterMap errOf, pcks.filterMap valOf) else none
+
+open Uniflow.Generated.JoinFacts in
+def joinByFacts (pcks : List Ans) : Option Resp :=
+  match joinChain pcks [] [] pre with
+  | .ret r => some r
+  | .bad => none
+  | .fall =>
+    if loops ≠ 1 ∨ loopRange ≠ "pcks" ∨ loopVars ≠ "_,pck" ∨ afterLoop ≠ [] then none else
+    match joinCollect skipCond skipAction switchTag switchCases pcks with
+    | none => none
+    | some (errs, vals) =>
+      match joinChain pcks errs vals post with
+      | .ret r => some r
+      | _ => none
+end C01
+
+open Uniflow.Generated.JoinFacts in
+theorem C01.join_facts_as_modelled :
+    pre = [("pcks", "==", 0, "None"), ("pcks", "==", 1, "pcks[0]")] ∧
+    beforeLoop = ["var errs []error", "var payloads []types.Value"] ∧
+    loops = 1 ∧ loopRange = "pcks" ∧ loopVars = "_,pck" ∧
+    skipCond = "pck == nil || pck == None" ∧ skipAction = "continue" ∧
+    switchTag = "payload := pck.Payload().(type)" ∧
+    switchCases = [("types.Error", "errs = append(errs, payload.Unwrap())"), ("default", "payloads = append(payloads, payload)")] ∧
+    afterLoop = [] ∧
+    post = [("errs", ">", 0, "New(types.NewError(errors.Join(errs...)))"), ("payloads", "==", 0, "None"),
+            ("payloads", "==", 1, "New(payloads[0])"), ("", "", 0, "New(types.NewSlice(payloads...))")] := by
+  decide
+
+theorem C01.join_as_modelled (pcks : List Ans) : C01.joinByFacts pcks = some (join pcks) := by
+  obtain ⟨h1, _, h3, h4, h5, h6, h7, h8, h9, h10, h11⟩ := C01.join_facts_as_modelled
+  unfold C01.joinByFacts
+  rw [h1, h3, h4, h5, h6, h7, h8, h9, h10, h11]
+  match pcks with
+  | [] => simp [C01.joinChain, C01.joinLen, C01.cmpHolds, C01.joinResult, join]
+  | [a] => simp [C01.joinChain, C01.joinLen, C01.cmpHolds, C01.joinResult, join]
+  | a :: b :: rest =>
+    have hj : join (a :: b :: rest) =
+        (if (a :: b :: rest).filterMap errOf ≠ [] then Resp.err ((a :: b :: rest).filterMap errOf)
+         else match (a :: b :: rest).filterMap valOf with
+           | [] => .none
+           | [v] => .val v
+           | vs => .vals vs) := rfl
+    rw [hj]
+    have hc : ∀ l : List Ans, C01.joinCollect "pck == nil || pck == None" "continue" "payload := pck.Payload().(type)"
+        [("types.Error", "errs = append(errs, payload.Unwrap())"), ("default", "payloads = append(payloads, payload)")] l =
+        some (l.filterMap errOf, l.filterMap valOf) := by
+      intro l; simp [C01.joinCollect]
+    rw [hc]
+    have hg : ((1 : Nat) ≠ 1 ∨ "pcks" ≠ "pcks" ∨ "_,pck" ≠ "_,pck" ∨ ([] : List String) ≠ []) = False := by simp
+    simp only [hg, if_false]
+    generalize (a :: b :: rest).filterMap errOf = es
+    generalize (a :: b :: rest).filterMap valOf = vs
+    have hp : C01.joinChain (a :: b :: rest) [] [] [("pcks", "==", 0, "None"), ("pcks", "==", 1, "pcks[0]")] = .fall := by
+      simp [C01.joinChain, C01.joinLen, C01.cmpHolds]
+    rw [hp]
+    match es, vs with
+    | e :: es', _ => simp [C01.joinChain, C01.joinLen, C01.cmpHolds, C01.joinResult]
+    | [], [] => simp [C01.joinChain, C01.joinLen, C01.cmpHolds, C01.joinResult]
+    | [], [v] => simp [C01.joinChain, C01.joinLen, C01.cmpHolds, C01.joinResult]
+    | [], v :: v' :: vs' => simp [C01.joinChain, C01.joinLen, C01.cmpHolds, C01.joinResult]
+
+theorem C01.join_by_facts_nonvacuous :
+    C01.joinByFacts [.val 1, .none, .val 2] = some (.vals [1, 2]) ∧
+    C01.joinByFacts [.val 1, .err 7, .none, .err 0] = some (.err [7, 0]) ∧
+    C01.joinByFacts [.none, .none] = some .none := by
+  decide
+
+/-! ## generic reading of a pinned loop -/
+namespace C01
+/-- A Go `for cond { body }` (kind "for") – or, were the statement an `if cond { body }`, one conditional
+execution (kind "if") – run with fuel; `none`: out of fuel or an unknown kind. -/
+def runLoop {σ : Type} (kind : String) (cond : σ → Bool) (body : σ → σ) : Nat → σ → Option σ
+  | 0, s => if cond s then none else some s
+  | n + 1, s =>
+    if !cond s then some s
+    else if kind = "for" then runLoop kind cond body n (body s)
+    else if kind = "if" then some (body s)
+    else none
+
+/-- `len(w.receives) > 0 && !slices.Contains(w.receives[i], nil)` with `i` the extracted index -/
+def flushCond (i : Nat) (s : List Row × List Resp) : Bool :=
+  decide (s.1.length > 0) && (match s.1[i]? with | some row => !hasNil row | none => false)
+
+/-- `pck := Join(w.receives[i]...); w.receives = w.receives[lo:]; …; w.in <- pck` -/
+def flushBody (emptyDropped : Bool) (i lo : Nat) (s : List Row × List Resp) : List Row × List Resp :=
+  match s.1[i]? with
+  | some row => (s.1.drop lo, s.2 ++ [respOf emptyDropped row])
+  | none => s
+
+theorem runLoop_flush (ed : Bool) (rows : List Row) : ∀ (n : Nat) (acc : List Resp), rows.length ≤ n →
+    runLoop "for" (flushCond 0) (flushBody ed 0 1) n (rows, acc) =
+      some ((flush ed rows).1, acc ++ (flush ed rows).2) := by
+  induction rows with
+  | nil => intro n acc _; cases n <;> simp [runLoop, flushCond, flush]
+  | cons row rest ih =>
+    intro n acc hn
+    cases n with
+    | zero => simp at hn
+    | succ n =>
+      by_cases h : hasNil row
+      · simp [runLoop, flushCond, flush, h]
+      · simp [runLoop, flushCond, flush, h, flushBody]
+        rw [ih n _ (by simpa using hn)]
+        simp
+end C01
+
+open Uniflow.Generated.WriterFacts
+
+/-- `receive` flushes in a LOOP -/
+theorem C01.receive_flush_facts :
+    receiveFlushGuard = "head == 0" ∧
+    receiveFlushLoop = ⟨"for", "len(w.receives) > 0 && !slices.Contains(w.receives[0], nil)", "", false, false, false,
+      ["pck := Join(w.receives[0]...)", "w.receives = w.receives[1:]", "w.inbounds.Handle(pck)", "w.in <- pck"]⟩ ∧
+    receiveFlushPop = ⟨0, 1, false, []⟩ := by
+  decide
+
+theorem C01.receive_flush_as_modelled (rows : List Row) :
+    C01.runLoop receiveFlushLoop.kind (C01.flushCond receiveFlushPop.index)
+      (C01.flushBody false receiveFlushPop.index receiveFlushPop.low) rows.length (rows, []) = some (flush false rows) := by
+  have hk : receiveFlushLoop.kind = "for" := by decide
+  have hi : receiveFlushPop.index = 0 := by decide
+  have hl : receiveFlushPop.low = 1 := by decide
+  rw [hk, hi, hl]
+  simpa using C01.runLoop_flush false rows rows.length [] (Nat.le_refl _)
+
+/-! ## Write -/
+
+/-- The cell `Write` leaves for a reader: `receives` is `make`d all nil; the else-branch of `if r.write(…)` runs for
+a reader that refused. `none`: a branch this reading does not understand. -/
+def C01.writeCell (elseB : List String) (refused : Bool) : Option Cell :=
+  if !refused then some none
+  else if elseB = ["receives[i] = None"] then some (some Ans.none)
+  else if elseB = [] then some none
+  else none
+
+theorem C01.write_facts :
+    writeGuards = [("w.done", "return 0"), ("len(w.readers) == 0", "return 0")] ∧
+    writeLoop = ⟨"range", "w.readers", "i,r", false, false, false,
+      ["if r.write(New(pck.Payload()), w, w.links[i])", "  count++", "else", "  receives[i] = None"]⟩ ∧
+    writeAccepted = "r.write(New(pck.Payload()), w, w.links[i])" ∧
+    writeThen = ["count++"] ∧ writeElse = ["receives[i] = None"] ∧
+    writeAppendGuard = ("count", ">", 0) ∧
+    writeAppendBody = ["w.receives = append(w.receives, receives)"] := by
+  decide
+
+/-- `Write` as the facts read: every refused reader's cell is what the else-branch assigns, the row is appended
+exactly when the extracted guard holds of the number of accepting readers (`count`), and that number is returned –
+this is the model's `write` step. -/
+theorem C01.write_row_as_modelled (m : W) (v : Nat) (hd : m.done = false) (hr : m.readers.isEmpty = false)
+    (hl : ¬ m.links.length < m.readers.length) :
+    (m.readers.map fun r => C01.writeCell writeElse (m.closed r)) = (newRow m.closed m.readers).map some ∧
+    (step m (.write v)).1.rows =
+      (if C01.cmpHolds writeAppendGuard.2.1 (accepting m.closed m.readers).length writeAppendGuard.2.2 = some true
+       then m.rows ++ [newRow m.closed m.readers] else m.rows) ∧
+    (step m (.write v)).2.ret = .cnt (accepting m.closed m.readers).length := by
+  have h5 : writeElse = ["receives[i] = None"] := by decide
+  have h6 : writeAppendGuard = ("count", ">", 0) := by decide
+  rw [h5, h6]
+  refine ⟨?_, ?_, ?_⟩
+  · simp only [newRow, List.map_map]
+    apply List.map_congr_left
+    intro r _
+    cases h : m.closed r <;> simp [C01.writeCell, h]
+  · simp only [step, stepWith, hd, hr, hl]
+    by_cases h : (accepting m.closed m.readers).length > 0 <;> simp [C01.cmpHolds, h]
+  · simp only [step, stepWith, hd, hr, hl]
+    by_cases h : (accepting m.closed m.readers).length > 0
+    · simp [h]
+    · simp [h]; omega
+
+/-! ## ranges that visit every element -/
+
+/-- The elements for which the whole body of a `for … range xs` runs: all of them, in order, when the loop has no
+`continue`, `break` or `return`. -/
+def C01.rangeVisits {α : Type} (l : Loop) (xs : List α) : Option (List α) :=
+  if l.kind = "range" ∧ l.hasContinue = false ∧ l.hasBreak = false ∧ l.hasReturn = false then some xs else none
+
+theorem C01.close_facts :
+    closeHeads = ["w.mu.Lock()", "defer w.mu.Unlock()", "if w.done", "pck := New(ErrDroppedPacket)", "for range w.receives",
+      "close(w.in)", "w.done = true", "w.readers = nil", "w.links = nil", "w.receives = nil", "w.inbounds = nil", "w.outbounds = nil"] ∧
+    closeLoop = ⟨"range", "w.receives", "", false, false, false, ["w.inbounds.Handle(pck)", "w.in <- pck"]⟩ ∧
+    readerCloseHeads = ["r.mu.Lock()", "defer r.mu.Unlock()", "if r.done", "pck := New(ErrDroppedPacket)",
+      "for _, req := range r.writers", "close(r.in)", "r.done = true", "r.writers = nil", "r.inbounds = nil", "r.outbounds = nil"] ∧
+    readerCloseLoop = ⟨"range", "r.writers", "_,req", false, false, false,
+      ["r.outbounds.Handle(pck)", "go req.writer.receive(pck, r, req.link)"]⟩ := by
+  decide
+
+/-- `(*Writer).Close` pushes one dropped packet per pending row, `(*Reader).Close` spawns one
+`go req.writer.receive(dropped, r, req.link)` per queued request – ALL of them, in queue order: the loops as extracted
+visit every element, which is what the model's `closeW` / `closeR` steps do. -/
+theorem C01.close_loops_as_modelled (m : W) :
+    (m.done = false →
+      (C01.rangeVisits closeLoop m.rows).map (·.map fun _ => Resp.dropped) = some (step m .closeW).2.emits) ∧
+    (∀ r, m.closed r = false →
+      C01.rangeVisits readerCloseLoop (m.pend r) = some ((step m (.closeR r)).1.drops r) ∧
+      (step m (.closeR r)).2.ret = .cnt (m.pend r).length ∧ (step m (.closeR r)).1.pend r = []) := by
+  have h2 : C01.rangeVisits closeLoop m.rows = some m.rows := by
+    have : closeLoop.kind = "range" ∧ closeLoop.hasContinue = false ∧ closeLoop.hasBreak = false ∧ closeLoop.hasReturn = false := by decide
+    simp [C01.rangeVisits, this]
+  have h4 : ∀ r, C01.rangeVisits readerCloseLoop (m.pend r) = some (m.pend r) := by
+    have : readerCloseLoop.kind = "range" ∧ readerCloseLoop.hasContinue = false ∧ readerCloseLoop.hasBreak = false ∧
+        readerCloseLoop.hasReturn = false := by decide
+    simp [C01.rangeVisits, this]
+  rw [h2]
+  refine ⟨fun hd => ?_, fun r hr => ?_⟩
+  · simp [step, stepWith, hd]
+  · rw [h4]; simp [step, stepWith, hr]
+
+/-! ## FIFO queues: the pump's buffer and the reader's request queue -/
+
+/-- Go's `x := s[i]` followed by `s = s[lo:]` on a list -/
+def C01.popAt {α : Type} (i lo : Nat) (s : List α) : Option (α × List α) := (s[i]?).map fun a => (a, s.drop lo)
+
+theorem C01.pump_facts :
+    writerPumpHeads = ["defer close(w.out)", "buffer := make([]*Packet, 0, 2)", "for pck := range w.in"] ∧
+    writerPumpSelects = [["w.out <- pck", "default"], ["pck, ok := <-w.in", "w.out <- buffer[0]"]] ∧
+    writerPumpSend = "w.out <- buffer[0]" ∧ writerPumpAfterSend = ["buffer = buffer[1:]"] ∧
+    writerPumpPop = ⟨0, 1, false, ["buffer := make([]*Packet, 0, 2)", "buffer = append(buffer, pck)", "buffer = append(buffer, pck)"]⟩ ∧
+    readerPumpHeads = ["defer close(r.out)", "buffer := make([]*Packet, 0, 2)", "for pck := range r.in"] ∧
+    readerPumpSelects = [["r.out <- pck", "default"], ["pck, ok := <-r.in", "r.out <- buffer[0]"]] ∧
+    readerPumpSend = "r.out <- buffer[0]" ∧ readerPumpAfterSend = ["buffer = buffer[1:]"] ∧
+    readerPumpPop = ⟨0, 1, false, ["buffer := make([]*Packet, 0, 2)", "buffer = append(buffer, pck)", "buffer = append(buffer, pck)"]⟩ := by
+  decide
+
+/-- The pump hands over `buffer[i]` and keeps `buffer[lo:]` with the extracted `i`, `lo`: that is the model's `deq`
+(oldest first), for the writer's and for the reader's pump. -/
+theorem C01.pump_fifo_as_modelled {α : Type} (p : Uniflow.Pump.P α) (a : α) (rest : List α) :
+    (C01.popAt writerPumpPop.index writerPumpPop.low p.buf = some (a, rest) →
+      Uniflow.Pump.step p .deq = { p with buf := rest, delivered := p.delivered ++ [a] }) ∧
+    (C01.popAt readerPumpPop.index readerPumpPop.low p.buf = some (a, rest) →
+      Uniflow.Pump.step p .deq = { p with buf := rest, delivered := p.delivered ++ [a] }) := by
+  have h5 : writerPumpPop.index = 0 ∧ writerPumpPop.low = 1 := by decide
+  have h10 : readerPumpPop.index = 0 ∧ readerPumpPop.low = 1 := by decide
+  rw [h5.1, h5.2, h10.1, h10.2]
+  have : C01.popAt 0 1 p.buf = some (a, rest) →
+      Uniflow.Pump.step p .deq = { p with buf := rest, delivered := p.delivered ++ [a] } := by
+    intro h
+    cases hb : p.buf with
+    | nil => simp [C01.popAt, hb] at h
+    | cons x xs =>
+      simp [C01.popAt, hb] at h
+      simp [Uniflow.Pump.step, Uniflow.Pump.stepR, hb, h.1, h.2]
+  exact ⟨this, this⟩
+
+theorem C01.reader_queue_facts :
+    readerWriteGuards = [("r.done", "return false")] ∧
+    readerWriteHeads = ["r.mu.Lock()", "defer r.mu.Unlock()", "if r.done",
+      "r.writers = append(r.writers, request{writer: writer, link: link})", "r.inbounds.Handle(pck)", "r.in <- pck", "return true"] ∧
+    readerReceiveGuards = [("len(r.writers) == 0", "r.mu.Unlock(); return false")] ∧
+    readerReceiveHeads = ["r.mu.Lock()", "if len(r.writers) == 0", "r.outbounds.Handle(pck)", "req := r.writers[0]",
+      "r.writers = r.writers[1:]", "r.mu.Unlock()", "return req.writer.receive(pck, r, req.link)"] ∧
+    readerReceivePop = ⟨0, 1, false, []⟩ := by
+  decide
+
+/-- `Reader.Receive` answers the request `r.writers[i]` and keeps `r.writers[lo:]` with the extracted `i`, `lo`:
+the model's `answer` step (oldest request first, its link generation passed to `receive`). -/
+theorem C01.reader_queue_as_modelled (m : W) (r : RId) (a : Ans) (g : Nat) (rest : List Nat)
+    (h : C01.popAt readerReceivePop.index readerReceivePop.low (m.pend r) = some (g, rest)) :
+    step m (.answer r a) = receive { m with pend := fun x => if x = r then rest else m.pend x } a r g := by
+  have hi : readerReceivePop.index = 0 ∧ readerReceivePop.low = 1 := by decide
+  rw [hi.1, hi.2] at h
+  cases hp : m.pend r with
+  | nil => simp [C01.popAt, hp] at h
+  | cons x xs =>
+    simp [C01.popAt, hp] at h
+    simp [step, stepWith, hp, h.1, h.2, receive]
+
+/-- Only `write` (append), `Receive` (pop) and `Close` (hand over to the spawned goroutines, then nil) assign
+`Reader.writers` – the three steps of the model that change `pend`. (From Generated/Locks.) -/
+theorem C01.reader_queue_writers :
+    ((Uniflow.Generated.Locks.accesses_packet_Reader.filter fun a => a.field == "writers" && a.write).map (·.meth))
+      = ["Close", "Receive", "write"] := by
+  decide
+
+theorem C01.packet_methods_as_modelled :
+    writerMethods = ["AddInboundHook", "AddOutboundHook", "Links", "Link", "Unlink", "Write", "Receive", "Close", "receive",
+      "indexOfReader", "indexOfHead"] ∧
+    readerMethods = ["AddInboundHook", "AddOutboundHook", "Read", "Receive", "Close", "write"] := by
+  decide
+
+/-! ## `receive` / `Unlink` / `Link` and the helpers, by outline -/
+
+theorem C01.receive_guards_as_modelled :
+    receiveGuards = [("w.done", "return false"), ("index < 0 || w.links[index] != link", "return false"),
+      ("head < 0", "return false")] ∧
+    receiveHeads = ["defer verifReceive(w, reader, pck, link)()", "w.mu.Lock()", "defer w.mu.Unlock()", "if w.done",
+      "index := w.indexOfReader(reader)", "if index < 0 || w.links[index] != link", "head := w.indexOfHead(index)",
+      "if head < 0", "receives := w.receives[head]", "receives[index] = pck", "if head == 0", "return true"] := by
+  decide
+
+theorem C01.unlink_flush_facts :
+    unlinkFlushGuard = "r == reader" ∧
+    unlinkFlushLoop = ⟨"for", "len(w.receives) > 0 && !slices.Contains(w.receives[0], nil)", "", false, false, false,
+      ["pck := New(ErrDroppedPacket)", "if len(w.receives[0]) > 0", "  pck = Join(w.receives[0]...)",
+       "w.receives = w.receives[1:]", "w.inbounds.Handle(pck)", "w.in <- pck"]⟩ ∧
+    unlinkFlushPop = ⟨0, 1, false, []⟩ := by
+  decide
+
+/-- `Unlink`'s flush is the same loop; its body emits `New(ErrDroppedPacket)` for a row that has no column left
+(`respOf true`). -/
+theorem C01.unlink_flush_as_modelled (rows : List Row) :
+    C01.runLoop unlinkFlushLoop.kind (C01.flushCond unlinkFlushPop.index)
+      (C01.flushBody true unlinkFlushPop.index unlinkFlushPop.low) rows.length (rows, []) = some (flush true rows) := by
+  have hk : unlinkFlushLoop.kind = "for" := by decide
+  have hi : unlinkFlushPop.index = 0 := by decide
+  have hl : unlinkFlushPop.low = 1 := by decide
+  rw [hk, hi, hl]
+  simpa using C01.runLoop_flush true rows rows.length [] (Nat.le_refl _)
+
+/-- non-vacuity of the loop reading: three rows, the first two complete – the loop emits two responses and stops at
+the row that still owes an answer; read as an `if` (the seeded change c01a) it would emit only one. -/
+theorem C01.flush_loop_nonvacuous :
+    C01.runLoop "for" (C01.flushCond 0) (C01.flushBody false 0 1) 3
+      ([[some (.val 1)], [some (.val 2)], [none]], []) = some ([[none]], [.val 1, .val 2]) ∧
+    C01.runLoop "if" (C01.flushCond 0) (C01.flushBody false 0 1) 3
+      ([[some (.val 1)], [some (.val 2)], [none]], []) = some ([[some (.val 2)], [none]], [.val 1]) := by
+  decide
+
+/-- The functions the model follows statement by statement (`receiveWith`, `indexOf`, `indexOfHead`, the `link` and
+`unlink` steps): their outlines are the ones transcribed. -/
+theorem C01.receive_outline_as_modelled :
+    outline_Writer_receive = [
+      "defer verifReceive(w, reader, pck, link)()",
+      "w.mu.Lock()",
+      "defer w.mu.Unlock()",
+      "if w.done",
+      "  return false",
+      "index := w.indexOfReader(reader)",
+      "if index < 0 || w.links[index] != link",
+      "  return false",
+      "head := w.indexOfHead(index)",
+      "if head < 0",
+      "  return false",
+      "receives := w.receives[head]",
+      "receives[index] = pck",
+      "if head == 0",
+      "  for len(w.receives) > 0 && !slices.Contains(w.receives[0], nil)",
+      "    pck := Join(w.receives[0]...)",
+      "    w.receives = w.receives[1:]",
+      "    w.inbounds.Handle(pck)",
+      "    w.in <- pck",
+      "return true"] ∧
+    outline_Writer_indexOfReader = [
+      "for i, r := range w.readers",
+      "  if r == reader",
+      "    return i",
+      "return -1"] ∧
+    outline_Writer_indexOfHead = [
+      "for i, receives := range w.receives",
+      "  if len(receives) <= index",
+      "    continue",
+      "  if receives[index] == nil",
+      "    return i",
+      "return -1"] := by
+  decide
+
+theorem C01.link_unlink_outline_as_modelled :
+    outline_Writer_Link = [
+      "w.mu.Lock()",
+      "defer w.mu.Unlock()",
+      "if w.done",
+      "  return false",
+      "for _, r := range w.readers",
+      "  if r == reader",
+      "    return false",
+      "w.linked++",
+      "w.readers = append(w.readers, reader)",
+      "w.links = append(w.links, w.linked)",
+      "return true"] ∧
+    outline_Writer_Unlink = [
+      "w.mu.Lock()",
+      "defer w.mu.Unlock()",
+      "if w.done",
+      "  return false",
+      "for i, r := range w.readers",
+      "  if r == reader",
+      "    w.readers = append(w.readers[:i], w.readers[i+1:]...)",
+      "    w.links = append(w.links[:i], w.links[i+1:]...)",
+      "    for j := range w.receives",
+      "      if i < len(w.receives[j])",
+      "        w.receives[j] = append(w.receives[j][:i], w.receives[j][i+1:]...)",
+      "    for len(w.receives) > 0 && !slices.Contains(w.receives[0], nil)",
+      "      pck := New(ErrDroppedPacket)",
+      "      if len(w.receives[0]) > 0",
+      "        pck = Join(w.receives[0]...)",
+      "      w.receives = w.receives[1:]",
+      "      w.inbounds.Handle(pck)",
+      "      w.in <- pck",
+      "    return true",
+      "return false"] := by
+  decide
+
+/-- The pump goroutines: `range` over `in`, a non-blocking first hand-over, then the buffer loop whose receive clause
+returns – discarding the buffer – when `in` is closed (Model/Pump rule `discard`), and `close(out)` deferred. -/
+theorem C01.pump_outline_as_modelled :
+    outline_NewWriter = [
+      "w := &Writer{ in: make(chan *Packet), out: make(chan *Packet), }",
+      "go func#1()",
+      "func#1()",
+      "  defer close(w.out)",
+      "  buffer := make([]*Packet, 0, 2)",
+      "  for pck := range w.in",
+      "    select",
+      "      case w.out <- pck",
+      "      default",
+      "        buffer = append(buffer, pck)",
+      "        for len(buffer) > 0",
+      "          select",
+      "            case pck, ok := <-w.in",
+      "              if !ok",
+      "                return",
+      "              buffer = append(buffer, pck)",
+      "            case w.out <- buffer[0]",
+      "              buffer = buffer[1:]",
+      "return w"] ∧
+    outline_NewReader = [
+      "r := &Reader{ in: make(chan *Packet), out: make(chan *Packet), }",
+      "go func#1()",
+      "func#1()",
+      "  defer close(r.out)",
+      "  buffer := make([]*Packet, 0, 2)",
+      "  for pck := range r.in",
+      "    select",
+      "      case r.out <- pck",
+      "      default",
+      "        buffer = append(buffer, pck)",
+      "        for len(buffer) > 0",
+      "          select",
+      "            case pck, ok := <-r.in",
+      "              if !ok",
+      "                return",
+      "              buffer = append(buffer, pck)",
+      "            case r.out <- buffer[0]",
+      "              buffer = buffer[1:]",
+      "return r"] := by
   decide
